@@ -197,3 +197,156 @@ func checkNilSideUse(cx *CheckCtx, sp *ssa.Package) {
 		cx.holds("nil-side-use", "deploy", fmt.Sprintf("%d tests of a pointer, map, function or interface against nil: none uses the value on its nil side", n))
 	}
 }
+
+// checkSubmissionTracked (submission-tracked): a call that submits transactions
+// answers (id…, validUntilBlock, error). The in-flight query of D14 can only
+// ever answer "pending" for a step if every such answer is handed to the
+// monitor's tracker — the method of the monitor type that takes a uint32 and a
+// variadic list of ids — with *that* call's validUntilBlock and *all* of its
+// ids (a fallback transaction that is not tracked lets the step send a second
+// main transaction while the first is still alive). Pure value flow on the SSA
+// form: which extract of the submission's tuple reaches which argument of a
+// tracker call of the same function.
+func checkSubmissionTracked(cx *CheckCtx, sp *ssa.Package) {
+	w := cx.W
+	// monitor types = receiver types of the in-flight queries (same shape test as checkPendingGuards)
+	monitorT := map[string]bool{}
+	for _, fn := range allFuncs(sp) {
+		if fn.Blocks == nil || fn.Signature.Recv() == nil || fn.Signature.Params().Len() != 0 || fn.Signature.Results().Len() != 1 || !isBoolType(fn.Signature.Results().At(0).Type()) {
+			continue
+		}
+		for _, b := range fn.Blocks {
+			for _, ins := range b.Instrs {
+				if c, ok := ins.(*ssa.Call); ok {
+					if cal := c.Common().StaticCallee(); cal != nil && cal.Name() == "Load" && cal.Signature.Recv() != nil && typeName(cal.Signature.Recv().Type()) != "" {
+						if fa, ok := c.Common().Args[0].(*ssa.FieldAddr); ok && len(fn.Params) > 0 && fa.X == fn.Params[0] {
+							monitorT[fn.Signature.Recv().Type().String()] = true
+						}
+					}
+				}
+			}
+		}
+	}
+	isTracker := func(cal *ssa.Function) bool {
+		if cal == nil || cal.Signature.Recv() == nil || !monitorT[cal.Signature.Recv().Type().String()] || !cal.Signature.Variadic() {
+			return false
+		}
+		ps := cal.Signature.Params()
+		sl, ok := ps.At(ps.Len() - 1).Type().(*types.Slice)
+		return ok && sl.Elem().String() == "github.com/nspcc-dev/neo-go/pkg/util.Uint256"
+	}
+	nSub, nTrack := 0, 0
+	for _, fn := range allFuncs(sp) {
+		if fn.Blocks == nil {
+			continue
+		}
+		var trackers []*ssa.Call
+		for _, b := range fn.Blocks {
+			for _, ins := range b.Instrs {
+				if c, ok := ins.(*ssa.Call); ok && isTracker(c.Common().StaticCallee()) {
+					trackers = append(trackers, c)
+				}
+			}
+		}
+		nTrack += len(trackers)
+		if len(trackers) == 0 {
+			continue // not a step with an in-flight monitor (e.g. the listener answering other members' requests)
+		}
+		// values handed to a tracker: uint32 arguments, and everything stored into its variadic array
+		type handed struct{ vub, ids map[ssa.Value]bool }
+		th := map[*ssa.Call]*handed{}
+		for _, t := range trackers {
+			h := &handed{vub: map[ssa.Value]bool{}, ids: map[ssa.Value]bool{}}
+			th[t] = h
+			args := t.Common().Args
+			// a value handed over may be the join of several alternative submissions (a phi): every operand counts
+			var spread func(m map[ssa.Value]bool, v ssa.Value, depth int)
+			spread = func(m map[ssa.Value]bool, v ssa.Value, depth int) {
+				v = stripConv(v)
+				if m[v] || depth > 6 {
+					return
+				}
+				m[v] = true
+				if ph, ok := v.(*ssa.Phi); ok {
+					for _, e := range ph.Edges {
+						spread(m, e, depth+1)
+					}
+				}
+			}
+			for _, a := range args[:len(args)-1] {
+				spread(h.vub, a, 0)
+			}
+			if sl, ok := args[len(args)-1].(*ssa.Slice); ok {
+				if al, ok := sl.X.(*ssa.Alloc); ok {
+					for _, r := range *al.Referrers() {
+						if ia, ok := r.(*ssa.IndexAddr); ok {
+							for _, r2 := range *ia.Referrers() {
+								if st, ok := r2.(*ssa.Store); ok && st.Addr == ia {
+									spread(h.ids, st.Val, 0)
+								}
+							}
+						}
+					}
+				}
+			}
+		}
+		for _, b := range fn.Blocks {
+			for _, ins := range b.Instrs {
+				c, ok := ins.(*ssa.Call)
+				if !ok || !isSubmissionType(c.Type()) {
+					continue
+				}
+				if cal := c.Common().StaticCallee(); cal != nil && cal.Pkg == sp {
+					continue // a helper of this package that forwards a submission: its own body is inspected
+				}
+				n := c.Type().(*types.Tuple).Len()
+				ex := map[int]ssa.Value{}
+				for _, r := range *c.Referrers() {
+					if e, ok := r.(*ssa.Extract); ok {
+						ex[e.Index] = e
+					}
+				}
+				// a submission whose whole answer is returned as it is (a forwarding helper) is the caller's to track
+				forwarded := false
+				for _, r := range *c.Referrers() {
+					if _, ok := r.(*ssa.Return); ok {
+						forwarded = true
+					}
+				}
+				if forwarded {
+					continue
+				}
+				nSub++
+				key := fmt.Sprintf("deploy.%s@%s", outerName(fn), w.pos(c.Pos()))
+				missing := ""
+				var via *ssa.Call
+				for _, t := range trackers {
+					if ex[n-2] != nil && th[t].vub[ex[n-2]] {
+						via = t
+					}
+				}
+				if via == nil {
+					missing = "its validUntilBlock reaches no call of the monitor's tracker in this function"
+				} else {
+					for i := 0; i < n-2; i++ {
+						if ex[i] == nil || !th[via].ids[ex[i]] {
+							missing = fmt.Sprintf("transaction id #%d of its answer is not among the ids handed to the tracker call at %s", i, w.pos(via.Pos()))
+						}
+					}
+				}
+				cx.decide(missing == "", "submission-tracked", key, "validUntilBlock and every transaction id of the answer are handed to one tracker call", "a submitted transaction is not tracked: "+missing+" — the step's in-flight query cannot see it and the step may send again while it is alive", w.pos(c.Pos()))
+			}
+		}
+	}
+	cx.count("submissions", nSub)
+	cx.count("tracker_calls", nTrack)
+	cx.floor("submissions", 12)
+}
+
+func outerName(fn *ssa.Function) string {
+	name := fn.Name()
+	for p := fn.Parent(); p != nil; p = p.Parent() {
+		name = p.Name()
+	}
+	return name
+}
